@@ -45,6 +45,8 @@ var c08ArgVals = []struct {
 	{"ga", func() Expr { return V("ga") }},
 	{"[1,2]", func() Expr { return Arr_(N("1"), N("2")) }},
 	{"un", func() Expr { return V("un") }},
+	{"o.missing", func() Expr { return Mem(V("o"), "missing") }}, // a member that does not exist: passed as null, and the parameter is the callee's own
+	{"ga[5]", func() Expr { return Idx(V("ga"), N("5")) }},
 }
 
 var c08H = &Func{Name: "h", Params: []string{"a"}, Body: Blk(Ex(Asg("=", Idx(V("a"), N("1")), N("50"))), Ex(Asg("=", V("hl"), N("60"))), &Return{N("70")})}
@@ -88,9 +90,9 @@ func c08CallProg(s c08Spec) *progCase {
 	}
 	h2 := &Func{Name: "h2", Params: []string{"v"}, Body: Blk(&Return{V("v")})}
 	main := Blk(
-		Ex(Asg("=", V("g"), N("1"))), Ex(Asg("=", V("ga"), Arr_(N("7"), N("8")))), Ex(Asg("=", V("d"), N("0"))),
+		Ex(Asg("=", V("g"), N("1"))), Ex(Asg("=", V("ga"), Arr_(N("7"), N("8")))), Ex(Asg("=", V("d"), N("0"))), Ex(Asg("=", V("o"), &ObjLit{Keys: []string{"k"}, Vals: []Expr{N("1")}})),
 		site,
-		showS("r", V("r")), showS("p", V("p")), showS("q", V("q")), showS("loc", V("loc")), showS("g", V("g")), showS("ga", V("ga")), showS("hl", V("hl")), showS("d", V("d")), showS("un", V("un")),
+		showS("r", V("r")), showS("p", V("p")), showS("q", V("q")), showS("loc", V("loc")), showS("g", V("g")), showS("ga", V("ga")), showS("hl", V("hl")), showS("d", V("d")), showS("un", V("un")), showS("o", V("o")),
 	)
 	return &progCase{P: &Program{Funcs: []*Func{c09Show, c08H, h2, f}, Rules: []*Rule{{Kind: "BEGIN", Body: main}}}}
 }
@@ -360,7 +362,7 @@ func init() {
 	}
 	fw.Register(&fw.Prop{
 		ID: "C08",
-		Rule: "(i) functions of arity 0-2 with every body of <= 3 statements over 10 statements (assign a parameter / a new name / an existing global, store through a container parameter, three returns, a call of a second function, bounded recursion, showing the parameters) called with every list of 0-3 arguments over {scalar, global array, array literal, unset variable} from 4 expression positions; every name is shown afterwards (unset or value); " +
+		Rule: "(i) functions of arity 0-2 with every body of <= 3 statements over 10 statements (assign a parameter / a new name / an existing global, store through a container parameter, three returns, a call of a second function, bounded recursion, showing the parameters) called with every list of 0-3 arguments over {scalar, global array, array literal, unset variable, missing member, index past the end} from 4 expression positions; every name is shown afterwards (unset or value); " +
 			"(ii) explicit-state search over histories of 15 frame-exit transitions (normal end, return from loops / match blocks, match with expression / block body, match blocks left by continue / break / next, calls left by next, nested call+match+call, 300-deep recursion, no case selected, surplus / missing arguments) fired from 4 nesting contexts, all histories of length <= 2 (thorough 3): the state is the evaluator's frame stack after the history and the invariant is that it equals the initial one-frame stack, output compared with the model; " +
 			"(iii) each transition over 5000 elements; (iv) the refusal depth of direct, mutual and through-match recursion found by bisection and required to be the same after 5000 repetitions of each transition; states = frame stacks and call classes reached",
 		Plan: func(t fw.Tier) int { return 3*nb + c08NCtx*nt + c08NCtx + len(c08Shapes) },
